@@ -1020,6 +1020,8 @@ class Interp:
             if name == "size":
                 sz = obj.size
                 return S.wrap(sz) if z3.is_expr(sz) else sz
+            if not hasattr(obj, name):
+                raise Unsupported(f"ndarray.{name} is not modelled")
             return getattr(obj, name)
         if isinstance(obj, SymList):
             return getattr(self, "_symlist_" + name)(obj)
